@@ -16,7 +16,7 @@ Ltac destruct_inner t :=
 Ltac crush_eq :=
   intros; try reflexivity;
   unfold gen_matmul_broadcast_shape, lib_matmul_broadcast_shape, gen_getitem_int_check, lib_getitem_int_check,
-         bind, try_catch, lift;
+         gen_getitem_tensor_check, lib_getitem_tensor_check, bind, try_catch, lift;
   repeat (match goal with
           | |- context [match ?x with _ => _ end] => destruct_inner x
           end; try reflexivity; try congruence);
@@ -29,6 +29,17 @@ Proof. crush_eq. Qed.
 (* the int branch translated from utils/getitem.py::_compute_getitem_size *)
 Lemma gen_getitem_int_check_eq : forall d n i, gen_getitem_int_check d n i = lib_getitem_int_check d n i.
 Proof. crush_eq. Qed.
+
+(* the range check of tensor indices translated from utils/getitem.py::_compute_getitem_size (incl. its DTYPE condition) *)
+Lemma gen_getitem_tensor_check_eq : forall d dt n vals,
+  gen_getitem_tensor_check d dt n vals = lib_getitem_tensor_check d dt n vals.
+Proof. crush_eq. Qed.
+
+(* FINITE (6 dtypes): the dtypes whose index tensors are range-checked are exactly the value-carrying ones *)
+Definition checked_idtypes : list idtype :=
+  filter (fun dt => negb (is_ok (gen_getitem_tensor_check true dt 3 [3%Z]))) all_idtypes.
+Lemma checked_idtypes_all : checked_idtypes = [DUInt8; DInt8; DInt16; DInt32; DInt64].
+Proof. vm_compute. reflexivity. Qed.
 
 Lemma gen_getitem_rank_check_true : gen_getitem_rank_check = true.
 Proof. reflexivity. Qed.
